@@ -549,7 +549,22 @@ def extra_coverage(ctx):
             "table_evaluations": _state.get("sweep_n", 0)}
 
 
+def rule_norm_route(ctx):
+    """Last clause of the property: every place that normalizes a haystack character (filtering, scoring, comparing)
+    goes through the one normalizer, so that all of them see the same result.  Shared with C01.norm-route."""
+    from props.c01 import rule_norm_route as r
+    r(ctx)
+
+
+def rule_predicate_purity(ctx):
+    """The scanning predicates of the non-ASCII prefilter decide by the normalized comparison only (shared with C01)."""
+    from props.c01 import rule_predicate_purity as r
+    r(ctx)
+
+
 def rules(ctx):
+    ctx.run_rule("C16.norm-route", rule_norm_route)
+    ctx.run_rule("C16.predicate-purity", rule_predicate_purity)
     ctx.run_rule("C16.dispatch", rule_dispatch)
     ctx.run_rule("C16.table-algebra", rule_table_algebra)
     ctx.run_rule("C16.sweep", rule_sweep)
